@@ -53,11 +53,13 @@ impl CompilationState {
         // Print any diagnostics to the console, along with the total number of warnings and errors emitted.
         let mut stderr = console::Term::stderr();
         let mut emitter = DiagnosticEmitter::new(&mut stderr, options, &self.files);
-        DiagnosticEmitter::emit_diagnostics(&mut emitter, diagnostics).expect("failed to emit diagnostics");
+        // If the diagnostics can't be written (the stream was closed, or is full), there's nobody left to tell about it.
+        // We carry on, so that the caller still learns whether any errors were emitted.
+        let _ = DiagnosticEmitter::emit_diagnostics(&mut emitter, diagnostics);
 
         // Only emit the summary message if we're writing human-readable output.
         if options.diagnostic_format == DiagnosticFormat::Human {
-            emit_totals(total_warnings, total_errors).expect("failed to emit totals");
+            let _ = emit_totals(total_warnings, total_errors);
         }
 
         total_errors != 0
